@@ -256,6 +256,46 @@ fn mk_rec(r: &Value) -> Vec<u8> {
     out
 }
 
+/// further forms of a signature: "der": ASN.1 DER of r || s; "drop": i removes the byte at position i;
+/// "lpad" / "rpad": n zero bytes in front / behind
+fn sig_post(sig_in: &mut Vec<u8>, s: &Value) {
+    let mut sig = std::mem::take(sig_in);
+    // "der": the ASN.1 DER form of r || s (what many ECDSA libraries emit by default)
+    if s.get("der").and_then(|x| x.as_bool()).unwrap_or(false) && sig.len() == 64 {
+        fn int(b: &[u8]) -> Vec<u8> {
+            let mut v: Vec<u8> = b.iter().copied().skip_while(|x| *x == 0).collect();
+            if v.is_empty() || v[0] & 0x80 != 0 {
+                v.insert(0, 0);
+            }
+            let mut o = vec![0x02, v.len() as u8];
+            o.extend(v);
+            o
+        }
+        let mut body = int(&sig[..32]);
+        body.extend(int(&sig[32..]));
+        let mut o = vec![0x30, body.len() as u8];
+        o.extend(body);
+        sig = o;
+    }
+    // "drop": i removes the byte at position i; "lpad": n prepends n zero bytes; "rpad": n appends n zero bytes
+    if let Some(i) = s.get("drop").and_then(|x| x.as_u64()) {
+        if (i as usize) < sig.len() {
+            sig.remove(i as usize);
+        }
+    }
+    if let Some(n) = s.get("lpad").and_then(|x| x.as_u64()) {
+        for _ in 0..n {
+            sig.insert(0, 0);
+        }
+    }
+    if let Some(n) = s.get("rpad").and_then(|x| x.as_u64()) {
+        for _ in 0..n {
+            sig.push(0);
+        }
+    }
+    *sig_in = sig;
+}
+
 fn mk_sig_item(s: &Value, items_enc: &[u8]) -> Vec<u8> {
     let mut sig: Vec<u8> = if let Some(raw) = s.get("raw") {
         jbytes(raw)
@@ -284,22 +324,7 @@ fn mk_sig_item(s: &Value, items_enc: &[u8]) -> Vec<u8> {
     if let Some(n) = s.get("len").and_then(|x| x.as_u64()) {
         sig.resize(n as usize, 0x11);
     }
-    // "drop": i removes the byte at position i; "lpad": n prepends n zero bytes; "rpad": n appends n zero bytes
-    if let Some(i) = s.get("drop").and_then(|x| x.as_u64()) {
-        if (i as usize) < sig.len() {
-            sig.remove(i as usize);
-        }
-    }
-    if let Some(n) = s.get("lpad").and_then(|x| x.as_u64()) {
-        for _ in 0..n {
-            sig.insert(0, 0);
-        }
-    }
-    if let Some(n) = s.get("rpad").and_then(|x| x.as_u64()) {
-        for _ in 0..n {
-            sig.push(0);
-        }
-    }
+    sig_post(&mut sig, s);
     let mut out = Vec::new();
     match get(s, "as").as_str().unwrap_or("s") {
         "s" => indep::enc_str(&sig, &mut out),
@@ -1587,6 +1612,7 @@ impl<W: Write> Exec<W> {
             _ => {}
         }
         if let Some(n) = sspec.get("len").and_then(|x| x.as_u64()) { sig.resize(n as usize, 0x11); }
+        sig_post(&mut sig, sspec);
         let (sch, pkb) = keys::indep_pub(&signer).expect("signer");
         let mut m = self.base("verifyraw", sid, i, step);
         let mut panics = Vec::new();
